@@ -61,7 +61,7 @@ class Scene:
         return self.sids.get((p, ns))
 
     def live_sids(self, ns=None):
-        return [(k, s) for k, s in sorted(self.sids.items())
+        return [(k, s) for k, s in sorted(self.sids.items(), key=repr)
                 if ns is None or k[1] == ns]
 
     # -- reading ----------------------------------------------------------
